@@ -76,6 +76,10 @@ CLASS_PREDS = {
 }
 
 
+class HookFault(Exception):
+    """raised by a harness predicate on request (natural fault source for C18)"""
+
+
 class PredLog:
     """Shared log of user-predicate invocations (C10 guard clause, C20 counters)."""
 
@@ -85,6 +89,8 @@ class PredLog:
         self.value_count = 0
         self.hook_calls = 0    # __type_order__ / __is_supertype__ hooks of harness classes
         self.keep = True
+        self.fault_at = None   # C18: raise HookFault inside the k-th predicate invocation
+        self.fault_count = 0
 
     def clear(self):
         self.value_calls.clear()
@@ -192,6 +198,10 @@ class Env:
 
             def pred(v):
                 log.value_count += 1
+                if log.fault_at is not None:
+                    log.fault_count += 1
+                    if log.fault_count == log.fault_at:
+                        raise HookFault(predname)
                 if log.keep:
                     ok = accepts(bound_tx, env, v)
                     if ok is not True or len(log.value_calls) < 64:
@@ -209,6 +219,10 @@ class Env:
 
             def cpred(c):
                 log.class_calls += 1
+                if log.fault_at is not None:
+                    log.fault_count += 1
+                    if log.fault_count == log.fault_at:
+                        raise HookFault(predname)
                 return isinstance(c, type) and raw(c)
 
             cpred.__name__ = cpred.__qualname__ = f"cc_{predname}"
